@@ -134,6 +134,7 @@ func New(o Opts) *Bed {
 	if o.Topology == "" {
 		o.Topology = "direct"
 	}
+	goat.VerifResetTracking()
 	b := &Bed{O: o, Impl: svc.NewImpl()}
 	b.Ctx, b.Cancel = context.WithCancel(context.Background())
 	b.Srv = goat.NewServer(o.SrvName, o.SrvOpts...)
